@@ -177,6 +177,24 @@ func sameAsStdlib(sc *scen.WScen, got []byte) bool {
 	return srec.Panic == "" && srec.CtorErr == nil && len(srec.Segs) > 0 && bytes.Equal(srec.Segs[0].Sink.Data, got)
 }
 
+// sameAsStdlibAll: every destination of the history received exactly the bytes
+// the standard library's Writer emits for the same history (no faults).
+func sameAsStdlibAll(sc *scen.WScen) bool {
+	f := *sc
+	f.Guard, f.Fault = false, nil
+	frec, _ := runW(&f, true, false)
+	srec, _ := runW(&f, false, false)
+	if frec.Panic != "" || srec.Panic != "" || frec.CtorErr != nil || srec.CtorErr != nil || len(frec.Segs) != len(srec.Segs) {
+		return false
+	}
+	for i := range frec.Segs {
+		if !bytes.Equal(frec.Segs[i].Sink.Data, srec.Segs[i].Sink.Data) {
+			return false
+		}
+	}
+	return true
+}
+
 func (c01) Shrinks(tr *Trace) []*Trace { return shrinkTraceW(tr) }
 
 func shrinkTraceW(tr *Trace) []*Trace {
@@ -297,6 +315,14 @@ func (c09) Gen(r *kern.Rng, tier string, idx int) *Trace {
 	default:
 		sc = genContainerW(r, "zlib", maxLen)
 	}
+	// the statement quantifies over the accelerated settings only (the
+	// delegated stdlib compressor's output does depend on Write sizes)
+	for k := 0; !sc.Accelerated() && k < 8; k++ {
+		sc.Level = r.Pick(-2, -1, 1, 2)
+		if sc.Ctor == "dict" {
+			sc.Ctor, sc.Dict = "level", nil
+		}
+	}
 	total := sc.Data.Len
 	var fl []int
 	nf := r.Pick(0, 0, 1, 2, 5)
@@ -344,6 +370,10 @@ func (c09) Exec(tr *Trace, keep bool) *Outcome {
 		return o
 	}
 	if r1.CtorErr != nil {
+		return o
+	}
+	if !tr.W.Accelerated() {
+		o.stat("skipped_delegated_setting", 1)
 		return o
 	}
 	if !allNil(r1) || !allNil(r2) {
